@@ -608,6 +608,36 @@ def coq_case(idx, case, got):
     return defs, f"(chk (gen_{case['filter']} {coq_list(evs)} {args}) {exp})"
 
 
+def boundary_or_unset(c):
+    """1 when a numeric cut value equals a particle's quantity exactly, or the quantity the filter needs is NaN somewhere"""
+    name = c["filter"]
+    acc = WINDOW_LIM.get(name, (None,))[0] or WINDOW_NUM.get(name) or NOARG.get(name) or \
+        {"particle_species": "pdg", "remove_particle_species": "pdg", "particle_status": "status",
+         "lower_event_energy_cut": "E"}.get(name)
+    if name == "spacetime_cut":
+        acc = c["args"][0]["v"] if c["args"][0]["v"] in ("t", "x", "y", "z") else None
+    if acc is None:
+        return 0
+    lims = set()
+    for a in c["args"]:
+        for x in (a["v"] if a["t"] in ("tuple", "list") else [a]):
+            if isinstance(x, dict) and x["t"] in ("int", "float"):
+                lims.add(float(py_arg(x)))
+    for ev in c["events"]:
+        for sp in ev:
+            p = build_particle(sp)
+            try:
+                with warnings.catch_warnings():
+                    warnings.simplefilter("ignore")
+                    v = getattr(p, acc)
+                    v = float(v() if callable(v) else v)
+            except Exception:
+                continue
+            if v != v or v in lims or -v in lims:
+                return 1
+    return 0
+
+
 def corpus_cases():
     out = []
     d = os.path.join(C.VERIF, "corpus", ID)
@@ -637,6 +667,7 @@ def correspondence(ctx, model_ok=True):
         for a in c["args"]:
             dist["arg_shapes"][a["t"]] = dist["arg_shapes"].get(a["t"], 0) + 1
         dist["array_built_particles"] += sum(1 for ev in c["events"] for s in ev if s["mode"] == "array")
+        dist["boundary_or_unset"] += boundary_or_unset(c)
         if "ok" in g and any(len(e) for e in c["events"]):
             keys.add(json.dumps(c, sort_keys=True))
     out = {"evaluations": len(cases), "distinct_nontrivial": len(keys), "distribution": dist,
@@ -684,7 +715,8 @@ def correspondence(ctx, model_ok=True):
     names = {2: "different selection", 3: "one side raises, the other returns", 4: "different exception class"}
     for c, g, code in zip(cases, gots, codes):
         if code in names:
-            out["failures"].append(Failure(c, f"model and implementation disagree ({names[code]}): impl={g}"))
+            out["failures"].append(Failure(c, f"{c['filter']}/{arg_kind(c)}: model and implementation disagree "
+                                              f"({names[code]}): impl={g}"))
     if dist["outside_modelled_domain"] > 0.05 * len(cases):
         out["broken"].append({"what": "too many cases outside the modelled domain",
                               "detail": str(dist["outside_modelled_domain"])})
@@ -702,19 +734,31 @@ def search(ctx):
     for c in corpus_cases():
         n += 1
         if oracle(c):
-            found.append(Failure(c, "corpus case fails the property oracle", key=None, on_impl=oracle(c)))
-            seen.add(c["filter"])
+            found.append(Failure(c, f"{c['filter']}/{arg_kind(c)}: corpus case fails the property oracle", on_impl=oracle(c)))
+            seen.add((c["filter"], arg_kind(c)))
     for i in range(budget):
         c = gen_case(ctx.rng, small=True, admissible_only=(i % 5 != 0))
-        if c["filter"] in seen:
+        if (c["filter"], arg_kind(c)) in seen:
             continue
         n += 1
         msg = oracle(c)
         if msg:
             c = shrink(c)
-            found.append(Failure(c, "property oracle fails on the implementation", on_impl=oracle(c)))
-            seen.add(c["filter"])
+            found.append(Failure(c, f"{c['filter']}/{arg_kind(c)}: property oracle fails on the implementation",
+                                 on_impl=oracle(c)))
+            seen.add((c["filter"], arg_kind(c)))
+    # one failure per distinct symptom first (the driver reports the first few)
+    rank, cnt = [], {}
+    for f in found:
+        sym = (f.case["filter"], (f.on_impl or "").split(":")[1][:25] if ":" in (f.on_impl or "") else "")
+        cnt[sym] = cnt.get(sym, 0) + 1
+        rank.append(cnt[sym])
+    found = [f for _, _, f in sorted(zip(rank, range(len(found)), found), key=lambda t: (t[0], t[1]))]
     return found, n
+
+
+def arg_kind(c):
+    return "+".join(a["t"] for a in c["args"]) or "noarg"
 
 
 def shrink(case):
